@@ -66,9 +66,20 @@ theorem symOK_facts (n : List Char) (h : symOK n = true) :
   | error e => rw [hd] at h3; cases h3
 
 /-- the `switch tok.typ` on the token of an atom yields the atom, without reading further -/
-theorem parseExprTok_atom (a : Sexp) (h : okAtom a = true) (f : Nat) :
-    parseExprTok (f + 1) (atomTok a) = Prog.pure a := by
+theorem parseExprTok_atom (ff : FloatFmt) (hlaw : FloatLaw ff) (a : Sexp) (h : okAtom a = true) (f : Nat) :
+    parseExprTok (f + 1) (atomTok ff a) = Prog.pure a := by
   cases a with
+  | uint v =>
+    simp only [okAtom, decide_eq_true_eq] at h
+    unfold parseExprTok
+    simp only [atomTok, atomOfTok_uint v h]
+    rfl
+  | float b sci =>
+    simp only [okAtom] at h
+    obtain ⟨p, hv, hpr, hsci, hpf⟩ := hlaw b sci h
+    unfold parseExprTok
+    simp only [atomTok, hpr, atomOfTok_floatParts p hv b hpf, hsci]
+    rfl
   | int v =>
     simp only [okAtom, decide_eq_true_eq] at h
     unfold parseExprTok
@@ -108,9 +119,9 @@ theorem parseExprTok_atom (a : Sexp) (h : okAtom a = true) (f : Nat) :
     rfl
   | _ => simp [okAtom] at h
 
-theorem consumes_atom (a : Sexp) (h : okAtom a = true) (f : Nat) :
-    Consumes (parseExprTok (f + 1) (atomTok a)) [] a := by
-  rw [parseExprTok_atom a h f]; exact consumes_pure a
+theorem consumes_atom (ff : FloatFmt) (hlaw : FloatLaw ff) (a : Sexp) (h : okAtom a = true) (f : Nat) :
+    Consumes (parseExprTok (f + 1) (atomTok ff a)) [] a := by
+  rw [parseExprTok_atom ff hlaw a h f]; exact consumes_pure a
 
 end ZygoVerif.ReadPrint
 
@@ -140,7 +151,7 @@ end
 def headOK (t : Token) : Prop :=
   t.typ ≠ .rparen ∧ t.typ ≠ .backslash ∧ t.typ ≠ .comma ∧ t.typ ≠ .rsquare
 
-theorem headOK_atom (a : Sexp) (h : okAtom a = true) : headOK (atomTok a) := by
+theorem headOK_atom (ff : FloatFmt) (a : Sexp) (h : okAtom a = true) : headOK (atomTok ff a) := by
   cases a <;> simp [okAtom] at h <;> simp [headOK, atomTok]
 
 theorem parseExprTok_lparen (f : Nat) : parseExprTok (f + 1) tLP = parseList f .rparen := by
@@ -183,21 +194,21 @@ theorem consumes_list_end (f : Nat) : Consumes (parseList (f + 1) .rparen) [tRP]
   exact this
 
 /-- one round of `parseList`: a head, then whatever follows it -/
-theorem consumes_list_cons (f : Nat) (h t : Sexp) (th : Token) (tsh : List Token) (rst : List Token)
-    (hth : toks h = th :: tsh) (hok : headOK th)
-    (hh : Consumes (parseExprNested f) (toks h) h)
+theorem consumes_list_cons (ff : FloatFmt) (f : Nat) (h t : Sexp) (th : Token) (tsh : List Token) (rst : List Token)
+    (hth : toks ff h = th :: tsh) (hok : headOK th)
+    (hh : Consumes (parseExprNested f) (toks ff h) h)
     (tr : Token) (tsr : List Token) (hrst : rst = tr :: tsr) (hnb : (tr.typ == TokType.backslash) = false)
     (ht : Consumes (parseList f .rparen) rst t) :
-    Consumes (parseList (f + 1) .rparen) (toks h ++ rst) (.pair h t) := by
+    Consumes (parseList (f + 1) .rparen) (toks ff h ++ rst) (.pair h t) := by
   rw [parseList_succ]
   rw [hth]
   apply consumes_peek0
   have : (th.typ == TokType.rparen) = false := by
     rw [beq_eq_false_iff_ne]; exact hok.1
   simp only [this, Bool.false_eq_true, ↓reduceIte]
-  have e : th :: tsh.append rst = toks h ++ rst := by rw [hth]; rfl
+  have e : th :: tsh.append rst = toks ff h ++ rst := by rw [hth]; rfl
   rw [e]
-  apply consumes_bind _ _ (toks h) rst h _ hh
+  apply consumes_bind _ _ (toks ff h) rst h _ hh
   rw [hrst]
   apply consumes_peek0
   simp only [hnb, Bool.false_eq_true, ↓reduceIte]
@@ -206,20 +217,20 @@ theorem consumes_list_cons (f : Nat) (h t : Sexp) (th : Token) (tsh : List Token
   simpa using this
 
 /-- the dotted end of `parseList`: `\ tail )` -/
-theorem consumes_list_dotted (f : Nat) (h x : Sexp) (th : Token) (tsh : List Token)
-    (hth : toks h = th :: tsh) (hok : headOK th)
-    (hh : Consumes (parseExprNested f) (toks h) h)
+theorem consumes_list_dotted (ff : FloatFmt) (f : Nat) (h x : Sexp) (th : Token) (tsh : List Token)
+    (hth : toks ff h = th :: tsh) (hok : headOK th)
+    (hh : Consumes (parseExprNested f) (toks ff h) h)
     (txs : List Token) (hx : Consumes (parseExprNested f) txs x) :
-    Consumes (parseList (f + 1) .rparen) (toks h ++ (tBS :: (txs ++ [tRP]))) (.pair h x) := by
+    Consumes (parseList (f + 1) .rparen) (toks ff h ++ (tBS :: (txs ++ [tRP]))) (.pair h x) := by
   rw [parseList_succ]
   rw [hth]
   apply consumes_peek0
   have : (th.typ == TokType.rparen) = false := by
     rw [beq_eq_false_iff_ne]; exact hok.1
   simp only [this, Bool.false_eq_true, ↓reduceIte]
-  have e : th :: tsh.append (tBS :: (txs ++ [tRP])) = toks h ++ (tBS :: (txs ++ [tRP])) := by rw [hth]; rfl
+  have e : th :: tsh.append (tBS :: (txs ++ [tRP])) = toks ff h ++ (tBS :: (txs ++ [tRP])) := by rw [hth]; rfl
   rw [e]
-  apply consumes_bind _ _ (toks h) _ h _ hh
+  apply consumes_bind _ _ (toks ff h) _ h _ hh
   apply consumes_peek0
   have hb : (tBS.typ == TokType.backslash) = true := by decide
   simp only [hb, ↓reduceIte]
@@ -245,87 +256,89 @@ theorem consumes_array_end (f : Nat) (acc : List Sexp) :
   simp only [h1, h2, Bool.false_eq_true, ↓reduceIte]
   exact consumes_pop _ tRS [] _ (consumes_pure _)
 
-theorem consumes_array_cons (f : Nat) (acc : List Sexp) (e : Sexp) (th : Token) (tsh rst : List Token) (r : Sexp)
-    (hth : toks e = th :: tsh) (hok : headOK th) (he : Consumes (parseExprNested f) (toks e) e)
+theorem consumes_array_cons (ff : FloatFmt) (f : Nat) (acc : List Sexp) (e : Sexp) (th : Token) (tsh rst : List Token) (r : Sexp)
+    (hth : toks ff e = th :: tsh) (hok : headOK th) (he : Consumes (parseExprNested f) (toks ff e) e)
     (hr : Consumes (parseArray f (e :: acc)) rst r) :
-    Consumes (parseArray (f + 1) acc) (toks e ++ rst) r := by
+    Consumes (parseArray (f + 1) acc) (toks ff e ++ rst) r := by
   rw [parseArray_succ, hth]
   apply consumes_peek0
   have h1 : (th.typ == TokType.comma) = false := by rw [beq_eq_false_iff_ne]; exact hok.2.2.1
   have h2 : (th.typ == TokType.rsquare) = false := by rw [beq_eq_false_iff_ne]; exact hok.2.2.2
   simp only [h1, h2, Bool.false_eq_true, ↓reduceIte]
-  have e' : th :: tsh.append rst = toks e ++ rst := by rw [hth]; rfl
+  have e' : th :: tsh.append rst = toks ff e ++ rst := by rw [hth]; rfl
   rw [e']
-  exact consumes_bind _ _ (toks e) rst e r he hr
+  exact consumes_bind _ _ (toks ff e) rst e r he hr
 
-theorem parse_atom (a : Sexp) (h : okAtom a = true) (f : Nat) (hf : 1 ≤ f) :
-    Consumes (parseExprTok f (atomTok a)) [] a := by
+theorem parse_atom (ff : FloatFmt) (hlaw : FloatLaw ff) (a : Sexp) (h : okAtom a = true) (f : Nat) (hf : 1 ≤ f) :
+    Consumes (parseExprTok f (atomTok ff a)) [] a := by
   obtain ⟨f', rfl⟩ : ∃ f', f = f' + 1 := ⟨f - 1, by omega⟩
-  exact consumes_atom a h f'
+  exact consumes_atom ff hlaw a h f'
 
 /-- an atom as the dotted tail of a list -/
-theorem parse_rest_atom (x : Sexp) (hx : okAtom x = true) (h : Sexp) (f : Nat) (th : Token) (tsh : List Token)
-    (hth : toks h = th :: tsh) (hok : headOK th) (hh : Consumes (parseExprNested f) (toks h) h) (hf : 2 ≤ f) :
-    Consumes (parseList (f + 1) .rparen) (toks h ++ [tBS, atomTok x, tRP]) (.pair h x) := by
+theorem parse_rest_atom (ff : FloatFmt) (hlaw : FloatLaw ff) (x : Sexp) (hx : okAtom x = true) (h : Sexp) (f : Nat)
+    (th : Token) (tsh : List Token)
+    (hth : toks ff h = th :: tsh) (hok : headOK th) (hh : Consumes (parseExprNested f) (toks ff h) h) (hf : 2 ≤ f) :
+    Consumes (parseList (f + 1) .rparen) (toks ff h ++ [tBS, atomTok ff x, tRP]) (.pair h x) := by
   obtain ⟨f', rfl⟩ : ∃ f', f = f' + 1 := ⟨f - 1, by omega⟩
-  have := consumes_list_dotted (f' + 1) h x th tsh hth hok hh [atomTok x]
-    (consumes_nested f' (atomTok x) [] x (parse_atom x hx f' (by omega)))
+  have := consumes_list_dotted ff (f' + 1) h x th tsh hth hok hh [atomTok ff x]
+    (consumes_nested f' (atomTok ff x) [] x (parse_atom ff hlaw x hx f' (by omega)))
   simpa using this
 
 mutual
-theorem parse_val : (v : Sexp) → okV v = true → ∀ f, costTok v ≤ f →
-    ∃ t ts, toks v = t :: ts ∧ headOK t ∧ Consumes (parseExprTok f t) ts v
+theorem parse_val (ff : FloatFmt) (hlaw : FloatLaw ff) : (v : Sexp) → okV v = true → ∀ f, costTok v ≤ f →
+    ∃ t ts, toks ff v = t :: ts ∧ headOK t ∧ Consumes (parseExprTok f t) ts v
   | .pair h t, hv, f, hf => by
     simp only [okV, Bool.and_eq_true] at hv
     simp only [costTok] at hf
     obtain ⟨f', rfl⟩ : ∃ f', f = f' + 3 := ⟨f - 3, by omega⟩
-    obtain ⟨th, tsh, hth, hok, hc⟩ := parse_val h hv.1 f' (by omega)
-    have hh : Consumes (parseExprNested (f' + 1)) (toks h) h := by
+    obtain ⟨th, tsh, hth, hok, hc⟩ := parse_val ff hlaw h hv.1 f' (by omega)
+    have hh : Consumes (parseExprNested (f' + 1)) (toks ff h) h := by
       rw [hth]; exact consumes_nested f' th tsh h hc
-    refine ⟨tLP, toks h ++ toksRest t, by simp [toks], by simp [headOK, tLP], ?_⟩
+    refine ⟨tLP, toks ff h ++ toksRest ff t, by simp [toks], by simp [headOK, tLP], ?_⟩
     rw [show f' + 3 = (f' + 2) + 1 from rfl, parseExprTok_lparen]
-    exact parse_rest t hv.2 h f' th tsh hth hok hh (by omega)
+    exact parse_rest ff hlaw t hv.2 h f' th tsh hth hok hh (by omega)
   | .array es inf, hv, f, hf => by
     simp only [okV, Bool.and_eq_true, Bool.not_eq_true'] at hv
     obtain ⟨rfl, hes⟩ := hv
     simp only [costTok] at hf
     have hpos : 1 ≤ costArr es := by cases es <;> simp [costArr] <;> omega
     obtain ⟨f', rfl⟩ : ∃ f', f = f' + 2 := ⟨f - 2, by omega⟩
-    refine ⟨tLS, toksElems es ++ [tRS], by simp [toks], by simp [headOK, tLS], ?_⟩
+    refine ⟨tLS, toksElems ff es ++ [tRS], by simp [toks], by simp [headOK, tLS], ?_⟩
     rw [show f' + 2 = (f' + 1) + 1 from rfl, parseExprTok_lsquare]
-    have := parse_elems es hes [] f' (by omega)
+    have := parse_elems ff hlaw es hes [] f' (by omega)
     simpa using this
-  | .int v, hv, f, hf => ⟨_, [], rfl, headOK_atom _ hv, parse_atom _ hv f hf⟩
-  | .char v, hv, f, hf => ⟨_, [], rfl, headOK_atom _ hv, parse_atom _ hv f hf⟩
-  | .str s raw, hv, f, hf => ⟨_, [], rfl, headOK_atom _ hv, parse_atom _ hv f hf⟩
-  | .sym n a b, hv, f, hf => ⟨_, [], rfl, headOK_atom _ hv, parse_atom _ hv f hf⟩
-  | .bool b, hv, f, hf => ⟨_, [], rfl, headOK_atom _ hv, parse_atom _ hv f hf⟩
-  | .uint v, hv, _, _ => by simp [okV, okAtom] at hv
-  | .float b s, hv, _, _ => by simp [okV, okAtom] at hv
+  | .int v, hv, f, hf => ⟨_, [], rfl, headOK_atom ff _ hv, parse_atom ff hlaw _ hv f hf⟩
+  | .uint v, hv, f, hf => ⟨_, [], rfl, headOK_atom ff _ hv, parse_atom ff hlaw _ hv f hf⟩
+  | .float b s, hv, f, hf => ⟨_, [], rfl, headOK_atom ff _ hv, parse_atom ff hlaw _ hv f hf⟩
+  | .char v, hv, f, hf => ⟨_, [], rfl, headOK_atom ff _ hv, parse_atom ff hlaw _ hv f hf⟩
+  | .str s raw, hv, f, hf => ⟨_, [], rfl, headOK_atom ff _ hv, parse_atom ff hlaw _ hv f hf⟩
+  | .sym n a b, hv, f, hf => ⟨_, [], rfl, headOK_atom ff _ hv, parse_atom ff hlaw _ hv f hf⟩
+  | .bool b, hv, f, hf => ⟨_, [], rfl, headOK_atom ff _ hv, parse_atom ff hlaw _ hv f hf⟩
   | .comment _ _, hv, _, _ => by simp [okV] at hv
   | .comma, hv, _, _ => by simp [okV] at hv
   | .semicolon, hv, _, _ => by simp [okV] at hv
   | .null, hv, _, _ => by simp [okV] at hv
   | .endS, hv, _, _ => by simp [okV] at hv
   | .emptyHash, hv, _, _ => by simp [okV] at hv
-theorem parse_rest : (t : Sexp) → okTail t = true → ∀ (h : Sexp) (f : Nat) (th : Token) (tsh : List Token),
-    toks h = th :: tsh → headOK th → Consumes (parseExprNested (f + 1)) (toks h) h → costRest t ≤ f + 1 →
-    Consumes (parseList (f + 2) .rparen) (toks h ++ toksRest t) (.pair h t)
+theorem parse_rest (ff : FloatFmt) (hlaw : FloatLaw ff) : (t : Sexp) → okTail t = true →
+    ∀ (h : Sexp) (f : Nat) (th : Token) (tsh : List Token),
+    toks ff h = th :: tsh → headOK th → Consumes (parseExprNested (f + 1)) (toks ff h) h → costRest t ≤ f + 1 →
+    Consumes (parseList (f + 2) .rparen) (toks ff h ++ toksRest ff t) (.pair h t)
   | .pair h2 t2, ht, h, f, th, tsh, hth, hok, hh, hf => by
     simp only [okTail, Bool.and_eq_true] at ht
     simp only [costRest] at hf
     obtain ⟨f', rfl⟩ : ∃ f', f = f' + 1 := ⟨f - 1, by omega⟩
-    obtain ⟨th2, tsh2, hth2, hok2, hc2⟩ := parse_val h2 ht.1 f' (by omega)
-    have hh2 : Consumes (parseExprNested (f' + 1)) (toks h2) h2 := by
+    obtain ⟨th2, tsh2, hth2, hok2, hc2⟩ := parse_val ff hlaw h2 ht.1 f' (by omega)
+    have hh2 : Consumes (parseExprNested (f' + 1)) (toks ff h2) h2 := by
       rw [hth2]; exact consumes_nested f' th2 tsh2 h2 hc2
-    have hrec := parse_rest t2 ht.2 h2 f' th2 tsh2 hth2 hok2 hh2 (by omega)
+    have hrec := parse_rest ff hlaw t2 ht.2 h2 f' th2 tsh2 hth2 hok2 hh2 (by omega)
     have hnb : (th2.typ == TokType.backslash) = false := by rw [beq_eq_false_iff_ne]; exact hok2.2.1
-    have := consumes_list_cons (f' + 2) h (.pair h2 t2) th tsh (toks h2 ++ toksRest t2) hth hok hh th2
-      (tsh2 ++ toksRest t2) (by rw [hth2]; rfl) hnb hrec
+    have := consumes_list_cons ff (f' + 2) h (.pair h2 t2) th tsh (toks ff h2 ++ toksRest ff t2) hth hok hh th2
+      (tsh2 ++ toksRest ff t2) (by rw [hth2]; rfl) hnb hrec
     simpa [toksRest] using this
   | .null, _, h, f, th, tsh, hth, hok, hh, _ => by
     have hnb : (tRP.typ == TokType.backslash) = false := by decide
-    have := consumes_list_cons (f + 1) h .null th tsh [tRP] hth hok hh tRP [] rfl hnb (consumes_list_end f)
+    have := consumes_list_cons ff (f + 1) h .null th tsh [tRP] hth hok hh tRP [] rfl hnb (consumes_list_end f)
     simpa [toksRest] using this
   | .array es inf, ht, h, f, th, tsh, hth, hok, hh, hf => by
     simp only [okTail, Bool.and_eq_true, Bool.not_eq_true'] at ht
@@ -333,37 +346,42 @@ theorem parse_rest : (t : Sexp) → okTail t = true → ∀ (h : Sexp) (f : Nat)
     simp only [costRest] at hf
     have hpos : 1 ≤ costArr es := by cases es <;> simp [costArr] <;> omega
     obtain ⟨f', rfl⟩ : ∃ f', f = f' + 2 := ⟨f - 2, by omega⟩
-    have harr : Consumes (parseExprNested (f' + 3)) (tLS :: (toksElems es ++ [tRS])) (.array es false) := by
+    have harr : Consumes (parseExprNested (f' + 3)) (tLS :: (toksElems ff es ++ [tRS])) (.array es false) := by
       apply consumes_nested
       rw [show f' + 2 = (f' + 1) + 1 from rfl, parseExprTok_lsquare]
-      have := parse_elems es hes [] f' (by omega)
+      have := parse_elems ff hlaw es hes [] f' (by omega)
       simpa using this
-    have := consumes_list_dotted (f' + 3) h (.array es false) th tsh hth hok hh (tLS :: (toksElems es ++ [tRS])) harr
+    have := consumes_list_dotted ff (f' + 3) h (.array es false) th tsh hth hok hh (tLS :: (toksElems ff es ++ [tRS])) harr
     simpa [toksRest] using this
   | .int v, ht, h, f, th, tsh, hth, hok, hh, hf => by
-    have := parse_rest_atom (.int v) ht h (f + 1) th tsh hth hok hh (by simp only [costRest] at hf; omega)
+    have := parse_rest_atom ff hlaw (.int v) ht h (f + 1) th tsh hth hok hh (by simp only [costRest] at hf; omega)
+    simpa [toksRest] using this
+  | .uint v, ht, h, f, th, tsh, hth, hok, hh, hf => by
+    have := parse_rest_atom ff hlaw (.uint v) ht h (f + 1) th tsh hth hok hh (by simp only [costRest] at hf; omega)
+    simpa [toksRest] using this
+  | .float b s, ht, h, f, th, tsh, hth, hok, hh, hf => by
+    have := parse_rest_atom ff hlaw (.float b s) ht h (f + 1) th tsh hth hok hh (by simp only [costRest] at hf; omega)
     simpa [toksRest] using this
   | .char v, ht, h, f, th, tsh, hth, hok, hh, hf => by
-    have := parse_rest_atom (.char v) ht h (f + 1) th tsh hth hok hh (by simp only [costRest] at hf; omega)
+    have := parse_rest_atom ff hlaw (.char v) ht h (f + 1) th tsh hth hok hh (by simp only [costRest] at hf; omega)
     simpa [toksRest] using this
   | .str s raw, ht, h, f, th, tsh, hth, hok, hh, hf => by
-    have := parse_rest_atom (.str s raw) ht h (f + 1) th tsh hth hok hh (by simp only [costRest] at hf; omega)
+    have := parse_rest_atom ff hlaw (.str s raw) ht h (f + 1) th tsh hth hok hh (by simp only [costRest] at hf; omega)
     simpa [toksRest] using this
   | .sym n a b, ht, h, f, th, tsh, hth, hok, hh, hf => by
-    have := parse_rest_atom (.sym n a b) ht h (f + 1) th tsh hth hok hh (by simp only [costRest] at hf; omega)
+    have := parse_rest_atom ff hlaw (.sym n a b) ht h (f + 1) th tsh hth hok hh (by simp only [costRest] at hf; omega)
     simpa [toksRest] using this
   | .bool b, ht, h, f, th, tsh, hth, hok, hh, hf => by
-    have := parse_rest_atom (.bool b) ht h (f + 1) th tsh hth hok hh (by simp only [costRest] at hf; omega)
+    have := parse_rest_atom ff hlaw (.bool b) ht h (f + 1) th tsh hth hok hh (by simp only [costRest] at hf; omega)
     simpa [toksRest] using this
-  | .uint v, ht, _, _, _, _, _, _, _, _ => by simp [okTail, okAtom] at ht
-  | .float b s, ht, _, _, _, _, _, _, _, _ => by simp [okTail, okAtom] at ht
   | .comment _ _, ht, _, _, _, _, _, _, _, _ => by simp [okTail] at ht
   | .comma, ht, _, _, _, _, _, _, _, _ => by simp [okTail] at ht
   | .semicolon, ht, _, _, _, _, _, _, _, _ => by simp [okTail] at ht
   | .endS, ht, _, _, _, _, _, _, _, _ => by simp [okTail] at ht
   | .emptyHash, ht, _, _, _, _, _, _, _, _ => by simp [okTail] at ht
-theorem parse_elems : (es : List Sexp) → okList es = true → ∀ (acc : List Sexp) (f : Nat), costArr es ≤ f + 1 →
-    Consumes (parseArray (f + 1) acc) (toksElems es ++ [tRS]) (.array (acc.reverse ++ es) false)
+theorem parse_elems (ff : FloatFmt) (hlaw : FloatLaw ff) : (es : List Sexp) → okList es = true →
+    ∀ (acc : List Sexp) (f : Nat), costArr es ≤ f + 1 →
+    Consumes (parseArray (f + 1) acc) (toksElems ff es ++ [tRS]) (.array (acc.reverse ++ es) false)
   | [], _, acc, f, _ => by
     have := consumes_array_end f acc
     simpa [toksElems] using this
@@ -371,11 +389,11 @@ theorem parse_elems : (es : List Sexp) → okList es = true → ∀ (acc : List 
     simp only [okList, Bool.and_eq_true] at hes
     simp only [costArr] at hf
     obtain ⟨f', rfl⟩ : ∃ f', f = f' + 1 := ⟨f - 1, by omega⟩
-    obtain ⟨th, tsh, hth, hok, hc⟩ := parse_val e hes.1 f' (by omega)
-    have he : Consumes (parseExprNested (f' + 1)) (toks e) e := by
+    obtain ⟨th, tsh, hth, hok, hc⟩ := parse_val ff hlaw e hes.1 f' (by omega)
+    have he : Consumes (parseExprNested (f' + 1)) (toks ff e) e := by
       rw [hth]; exact consumes_nested f' th tsh e hc
-    have hrec := parse_elems r hes.2 (e :: acc) f' (by omega)
-    have := consumes_array_cons (f' + 1) acc e th tsh (toksElems r ++ [tRS]) _ hth hok he hrec
+    have hrec := parse_elems ff hlaw r hes.2 (e :: acc) f' (by omega)
+    have := consumes_array_cons ff (f' + 1) acc e th tsh (toksElems ff r ++ [tRS]) _ hth hok he hrec
     simpa [toksElems, List.append_assoc] using this
 end
 
